@@ -125,3 +125,5 @@ let event_str = function
   | EvResp f -> "R:" ^ hex_of_bytes f
   | EvClosed -> "X"
 
+
+let send_of s = match s with "c" -> Closed | "r" -> Reset | _ -> Stall
